@@ -1513,10 +1513,18 @@ func parentKindFact(x *Ctx, f *ssa.Function, fvIdx int, kind int64) bool {
 					continue
 				}
 				cell := p.Term(mc.Bindings[fvIdx]).String()
+				// a captured parameter lives in a cell whose loads the engine forwards to the parameter itself
+				param := ""
+				if a, ok := mc.Bindings[fvIdx].(*ssa.Alloc); ok {
+					if pv, okp := paths.SpilledParam(a).(*ssa.Parameter); okp {
+						param = p.Term(pv).String()
+					}
+				}
 				has := false
 				for _, fc := range p.Facts {
 					s := fc.Atom.String()
-					if fc.Pol && fc.Atom.Op == "eq" && strings.Contains(s, fmt.Sprintf("const(%d)", kind)) && strings.Contains(s, "Node.Kind](*"+cell+")") {
+					if fc.Pol && fc.Atom.Op == "eq" && strings.Contains(s, fmt.Sprintf("const(%d)", kind)) &&
+						(strings.Contains(s, "Node.Kind](*"+cell+")") || (param != "" && strings.Contains(s, "Node.Kind]("+param+")"))) {
 						has = true
 					}
 				}
